@@ -78,8 +78,38 @@ func groundIndexTerms(roots []*Term, into map[*Sort][]*Term, seen map[*Term]bool
 	}
 }
 
+// indexOffsets: closed terms c such that the body selects at (c + b) or (b + c).
+func indexOffsets(body *Term, b *Term) []*Term {
+	var out []*Term
+	seen := map[*Term]bool{}
+	vis := map[*Term]bool{}
+	var rec func(t *Term)
+	rec = func(t *Term) {
+		if vis[t] {
+			return
+		}
+		vis[t] = true
+		if (t.Op == "select" || t.Op == "store") && len(t.Args) >= 2 {
+			ix := t.Args[1]
+			if ix.Op == "bvadd" && len(ix.Args) == 2 {
+				for k := 0; k < 2; k++ {
+					if ix.Args[k] == b && len(ix.Args[1-k].fb) == 0 && !seen[ix.Args[1-k]] {
+						seen[ix.Args[1-k]] = true
+						out = append(out, ix.Args[1-k])
+					}
+				}
+			}
+		}
+		for _, a := range t.Args {
+			rec(a)
+		}
+	}
+	rec(body)
+	return out
+}
+
 // instances of a hypothesis: for every positively occurring forall, the body at each candidate term.
-func instantiateHyp(h *Term, cands map[*Sort][]*Term, out *[]*Term, budget *int) {
+func instantiateHyp(h *Term, cands map[*Sort][]*Term, out *[]*Term, budget *int, offsetMatch bool) {
 	var rec func(t *Term, guard []*Term)
 	rec = func(t *Term, guard []*Term) {
 		switch t.Op {
@@ -88,6 +118,27 @@ func instantiateHyp(h *Term, cands map[*Sort][]*Term, out *[]*Term, budget *int)
 			total := 1
 			for i, b := range t.Bound {
 				lists[i] = cands[b.S]
+				if offsetMatch && b.S.K == KBV {
+					// offset matching: the body indexes arrays at (c + b); a ground index t suggests b := t - c
+					offs := indexOffsets(t.Args[0], b)
+					if len(offs) > 0 {
+						seenC := map[*Term]bool{}
+						ext := append([]*Term{}, lists[i]...)
+						for _, x := range ext {
+							seenC[x] = true
+						}
+						for _, g := range cands[b.S] {
+							for _, c := range offs {
+								d := BVBin("bvsub", g, c)
+								if !seenC[d] && len(ext) < 40 {
+									seenC[d] = true
+									ext = append(ext, d)
+								}
+							}
+						}
+						lists[i] = ext
+					}
+				}
 				total *= len(lists[i])
 			}
 			if total == 0 || total > 400 {
@@ -139,6 +190,7 @@ func instantiateHyp(h *Term, cands map[*Sort][]*Term, out *[]*Term, budget *int)
 // the second keeps them and adds the instances.
 func (q *Query) Instantiated(level int) (*Query, *Query) {
 	withSub := level >= 1
+	offsetMatch := level >= 1
 	if q.Goal == nil {
 		return nil, q
 	}
@@ -194,7 +246,7 @@ func (q *Query) Instantiated(level int) (*Query, *Query) {
 		var out []*Term
 		for _, h := range q.Hyps {
 			if hasQuantifier(h) {
-				instantiateHyp(h, cands, &out, &budget)
+				instantiateHyp(h, cands, &out, &budget, offsetMatch)
 			}
 		}
 		inst = out
@@ -261,4 +313,168 @@ func stripQuant(h *Term) *Term {
 		return Implies(h.Args[0], stripQuant(h.Args[1]))
 	}
 	return True
+}
+
+// scalarSyms: names of the non-array free variables of t, plus "sel:<array>" for array variables read at closed scalar-free indices.
+func scalarSyms(t *Term, into map[string]bool) {
+	seen := map[*Term]bool{}
+	var rec func(t *Term)
+	rec = func(t *Term) {
+		if seen[t] {
+			return
+		}
+		seen[t] = true
+		if t.Op == "var" && t.S.K != KArray {
+			into[t.Name] = true
+			return
+		}
+		for _, a := range t.Args {
+			rec(a)
+		}
+	}
+	rec(t)
+}
+
+// Sliced keeps only the hypotheses connected to the goal through scalar symbols (two rounds); sound because
+// dropping hypotheses only weakens them.
+func (q *Query) Sliced(rounds int) *Query {
+	if q.Goal == nil {
+		return nil
+	}
+	cone := map[string]bool{}
+	scalarSyms(q.Goal, cone)
+	type hs struct {
+		t    *Term
+		syms map[string]bool
+	}
+	var all []hs
+	seenH := map[*Term]bool{}
+	for _, h := range q.Hyps {
+		if seenH[h] || hasQuantifier(h) {
+			continue
+		}
+		seenH[h] = true
+		m := map[string]bool{}
+		scalarSyms(h, m)
+		all = append(all, hs{h, m})
+	}
+	picked := map[*Term]bool{}
+	var out []*Term
+	for r := 0; r < rounds; r++ {
+		grew := false
+		for _, h := range all {
+			if picked[h.t] || len(h.syms) == 0 || len(h.syms) > 12 {
+				continue
+			}
+			hit := false
+			for s := range h.syms {
+				if cone[s] {
+					hit = true
+					break
+				}
+			}
+			if hit {
+				picked[h.t] = true
+				out = append(out, h.t)
+				for s := range h.syms {
+					if !cone[s] {
+						cone[s] = true
+						grew = true
+					}
+				}
+			}
+		}
+		if !grew {
+			break
+		}
+	}
+	var sks []*Term
+	return &Query{Hyps: out, Goal: skolemize(q.Goal, &sks), Extra: q.Extra, FPMode: q.FPMode}
+}
+
+// Scalarized replaces every closed scalar-sorted select/UF-free array read by a fresh variable (identical reads
+// share the variable). Relations between different reads are lost, so only `unsat` is meaningful - and sound.
+func (q *Query) Scalarized() *Query {
+	m := map[*Term]*Term{}
+	cache := map[*Term]*Term{}
+	var rec func(t *Term) *Term
+	rec = func(t *Term) *Term {
+		if r, ok := cache[t]; ok {
+			return r
+		}
+		var r *Term
+		switch {
+		case t.Op == "select" && t.Args[0].Op == "ite":
+			// push reads through conditionals so that the stored values become visible
+			a := t.Args[0]
+			r = Ite(rec(a.Args[0]), rec(Select(a.Args[1], t.Args[1])), rec(Select(a.Args[2], t.Args[1])))
+		case t.Op == "select" && t.S.K != KArray && len(t.fb) == 0:
+			v, ok := m[t]
+			if !ok {
+				v = FreshVar("rd", t.S)
+				m[t] = v
+			}
+			r = v
+		case len(t.Args) == 0:
+			r = t
+		default:
+			args := make([]*Term, len(t.Args))
+			ch := false
+			for i, a := range t.Args {
+				args[i] = rec(a)
+				if args[i] != a {
+					ch = true
+				}
+			}
+			if ch {
+				r = rebuild(t, args)
+			} else {
+				r = t
+			}
+		}
+		cache[t] = r
+		return r
+	}
+	out := &Query{Goal: rec(q.Goal), Extra: q.Extra, FPMode: q.FPMode}
+	for _, h := range q.Hyps {
+		if hasArraySort(h) {
+			continue
+		}
+		out.Hyps = append(out.Hyps, rec(h))
+	}
+	// drop hypotheses that still mention arrays
+	var keep []*Term
+	for _, h := range out.Hyps {
+		if !mentionsArray(h) {
+			keep = append(keep, h)
+		}
+	}
+	out.Hyps = keep
+	if mentionsArray(out.Goal) {
+		return nil
+	}
+	return out
+}
+
+func hasArraySort(t *Term) bool { return t.S.K == KArray }
+
+func mentionsArray(t *Term) bool {
+	seen := map[*Term]bool{}
+	var rec func(t *Term) bool
+	rec = func(t *Term) bool {
+		if seen[t] {
+			return false
+		}
+		seen[t] = true
+		if t.S.K == KArray {
+			return true
+		}
+		for _, a := range t.Args {
+			if rec(a) {
+				return true
+			}
+		}
+		return false
+	}
+	return rec(t)
 }
